@@ -2319,7 +2319,7 @@ index is a private method called by [Stack.Index].
 func (r stack) index(i int) (slice any, idx int, ok bool) {
 	if L := r.ulen(); L > 0 {
 		if i < 0 {
-			if r.positive(negidx) && i-(i*2) <= L {
+			if r.positive(negidx) && -L <= i {
 				i = factorNegIndex(i, L)
 				ok = true
 			}
